@@ -158,11 +158,15 @@ class CSSFontFaceRule(cssrule.CSSRule):
             a CSSStyleDeclaration or string
         """
         self._checkReadonly()
+        oldStyle = getattr(self, '_style', None)
         if isinstance(style, str):
             self._style = CSSStyleDeclaration(cssText=style, parentRule=self)
         else:
             style._parentRule = self
             self._style = style
+        if oldStyle is not None and oldStyle is not self._style:
+            # the replaced declaration is not part of this rule anymore
+            oldStyle._parentRule = None
 
     style = property(
         lambda self: self._style,
